@@ -1,14 +1,18 @@
 (* C11 — Each received message is processed once; handlers may call back.
-   Statements over the interleaving model Reader/Model.v of ReceivedMessageReader.loop / TryToReplaceLoop,
-   quantified over ALL schedules [sched], message lists [msgs], queue sizes [cap c], handler programs
-   [progs c] (any number of nested blocking requests, any nesting depth) and numbers [k] of
-   TryToReplaceLoop calls from goroutines that are not handlers.  Proofs: Reader/Proofs.v. *)
-From Coq Require Import ZArith List Bool Permutation.
-From GoCoap Require Import Reader.Model Reader.Spec Reader.Proofs.
+   Statements over the interleaving model Reader/Model.v of ReceivedMessageReader.loop / TryToReplaceLoop, the socket
+   reader's hand-off (queue messages and the signals it handles itself: acknowledgements, pongs) and the per-message-ID
+   lock of udp handleReq, quantified over ALL schedules [sched], message lists [msgs], queue sizes [cap c], handler
+   programs [progs c] (any number of nested blocking requests, confirmable nested requests, pings; any nesting
+   depth), signal placements [sigs c], message types / message IDs [wire c] and numbers [k] of TryToReplaceLoop calls
+   from goroutines that are not handlers.  [repaired_waits c = true]: the code after the repairs of Ping and of
+   handleReq (every blocking point asks for a replacement loop); [fixed c = true]: after the repair of F14.
+   Proofs: Reader/Proofs.v, Reader/Mid.v. *)
+From Coq Require Import ZArith List Bool Permutation Lia.
+From GoCoap Require Import Reader.Model Reader.Spec Reader.Proofs Reader.Mid.
 Import ListNotations.
 Open Scope Z_scope.
 
-(* never processed twice, and only messages that were accepted (both the code before and after the repair) *)
+(* never processed twice, and only messages that were accepted (every shape of the code) *)
 Theorem C11_at_most_once : forall c msgs k sched s,
   NoDup msgs -> run c (init msgs k) sched = Some s ->
   NoDup (map fst (log s)) /\ incl (map fst (log s)) msgs.
@@ -16,37 +20,70 @@ Proof. exact run_at_most_once. Qed.
 Print Assumptions C11_at_most_once.
 
 (* never dropped while the connection is open: in every complete run (no thread can move) with the
-   connection open, the dispatch log is a permutation of the pushed messages (both shapes) *)
+   connection open, the dispatch log is a permutation of the pushed messages (both shapes of the F14 repair) *)
 Theorem C11_exactly_once : forall c msgs k sched s,
+  repaired_waits c = true ->
   run c (init msgs k) sched = Some s -> terminal c s -> closed s = false ->
   Permutation msgs (map fst (log s)).
 Proof. exact run_exactly_once. Qed.
 Print Assumptions C11_exactly_once.
 
-(* handlers may block in nested requests to any depth: in every reachable state with the connection open
-   there is a current loop, different from every loop whose handler is blocked in a nested request, that has
-   not been replaced, has not exited, is not blocked itself and is at its select or able to move *)
+(* handlers may block to any depth - in nested requests, in the wait for the acknowledgement of a confirmable nested
+   request, in a ping, and a loop may block on the message-ID lock of a message that is being handled: in every
+   reachable state with the connection open there is a current loop, different from every blocked loop, that has not
+   been replaced, has not exited, is not blocked itself and is at its select or able to move *)
 Theorem C11_never_stalls : forall c msgs k sched s,
+  repaired_waits c = true ->
   run c (init msgs k) sched = Some s -> closed s = false ->
   exists lc, nth_error (loops s) (cur s) = Some lc /\ l_done lc = false /\ l_pc lc <> PExit /\
-    (forall m r ops, l_pc lc <> PWait m r ops) /\
+    blocked_pc (l_pc lc) = false /\
     (l_pc lc = PSelect \/ exists s', step c s (ALoop (cur s) AltQueue) = Some s') /\
-    forall l lp m r ops, nth_error (loops s) l = Some lp -> l_pc lp = PWait m r ops -> l <> cur s.
+    forall l lp, nth_error (loops s) l = Some lp -> blocked_pc (l_pc lp) = true -> l <> cur s.
 Proof. exact run_never_stalls. Qed.
 Print Assumptions C11_never_stalls.
 
-(* ... hence the awaited response is dispatched and the nested request returns: in a complete run with the
-   connection open no handler is left waiting for a response that was among the pushed messages *)
+(* ... hence the awaited response is dispatched, gets past the message-ID lock and the nested request returns: in a
+   complete run with the connection open no handler is left waiting for a response that was among the pushed
+   messages, provided no OTHER message takes the lock of the response's message ID ([own_key]: the peer does not use
+   one message ID for two different messages at a time; ACK / RST take no lock in the repaired code) *)
 Theorem C11_nested_returns : forall c msgs k sched s,
+  repaired_waits c = true -> NoDup msgs ->
   run c (init msgs k) sched = Some s -> terminal c s -> closed s = false ->
-  forall l lp m r ops, nth_error (loops s) l = Some lp -> l_pc lp = PWait m r ops -> ~ In r msgs.
+  forall l lp m r ops, nth_error (loops s) l = Some lp -> l_pc lp = PWait m r ops -> own_key c r -> ~ In r msgs.
 Proof. exact nested_returns. Qed.
 Print Assumptions C11_nested_returns.
+
+(* the replies the socket reader handles itself: in a complete run with the connection open it has run the handler
+   of every acknowledgement / pong the peer sent, and no handler is left waiting for one (a confirmable nested
+   request has been acknowledged, a ping issued by a handler has returned) *)
+Theorem C11_signals_handled : forall c msgs k sched s,
+  repaired_waits c = true -> sigs_wf c msgs ->
+  run c (init msgs k) sched = Some s -> terminal c s -> closed s = false ->
+  forall r q, In (r, q) (sigs c) -> signalled r s = true.
+Proof. exact signals_handled. Qed.
+Print Assumptions C11_signals_handled.
+
+Theorem C11_signal_waits_return : forall c msgs k sched s,
+  repaired_waits c = true -> sigs_wf c msgs ->
+  run c (init msgs k) sched = Some s -> terminal c s -> closed s = false ->
+  forall l lp m r ops, nth_error (loops s) l = Some lp -> l_pc lp = PWaitS m r ops -> forall q, ~ In (r, q) (sigs c).
+Proof. exact signal_waits_return. Qed.
+Print Assumptions C11_signal_waits_return.
+
+(* a loop left waiting for a message-ID lock in a complete run waits for a handler that itself waits for a reply
+   (every shape of the code) *)
+Theorem C11_lock_waits_justified : forall c s l lp m,
+  terminal c s -> nth_error (loops s) l = Some lp -> l_pc lp = PLock m ->
+  exists l' lp' m', nth_error (loops s) l' = Some lp' /\ handling lp' = Some m' /\
+    key_eqb (key_of c m') (key_of c m) = true /\
+    ((exists r ops, l_pc lp' = PWait m' r ops) \/ (exists r ops, l_pc lp' = PWaitS m' r ops)).
+Proof. exact lock_waits_justified. Qed.
+Print Assumptions C11_lock_waits_justified.
 
 (* the hand-off from the socket reader into the receive queue (tcp pushToReceivedMessageQueue, udp Conn.Process) is
    the single producer of the model: whatever the queue size and whatever the consumer loops, external callers and
    the closer do, the messages taken out of the queue so far, the queue content and the messages still to be
-   pushed are, in this order, the arrival sequence (both shapes of the code); what was taken out is exactly what
+   pushed are, in this order, the arrival sequence (every shape of the code); what was taken out is exactly what
    the loops hold or have dispatched *)
 Theorem C11_enqueue_in_order : forall c msgs k sched s,
   run c (init msgs k) sched = Some s ->
@@ -58,7 +95,7 @@ Print Assumptions C11_enqueue_in_order.
 (* arrival order, repaired code: messages are committed to their handlers (readingMessages.Store(false))
    in arrival order, in every run *)
 Theorem C11_commit_in_order : forall c msgs k sched s,
-  fixed c = true -> run c (init msgs k) sched = Some s -> exists rest, msgs = commits s ++ rest.
+  fixed c = true -> repaired_waits c = true -> run c (init msgs k) sched = Some s -> exists rest, msgs = commits s ++ rest.
 Proof. exact commit_in_order. Qed.
 Print Assumptions C11_commit_in_order.
 
@@ -66,13 +103,13 @@ Print Assumptions C11_commit_in_order.
    TryToReplaceLoop executes between a loop's Store(false) and its call of the handler ([calm]); this holds
    whether or not handlers block *)
 Theorem C11_in_order : forall c msgs k sched s,
-  fixed c = true -> run c (init msgs k) sched = Some s -> calm c (init msgs k) sched = true ->
+  fixed c = true -> repaired_waits c = true -> run c (init msgs k) sched = Some s -> calm c (init msgs k) sched = true ->
   exists rest, msgs = map fst (log s) ++ rest.
 Proof. exact run_in_order. Qed.
 Print Assumptions C11_in_order.
 
 Theorem C11_in_order_complete : forall c msgs k sched s,
-  fixed c = true -> run c (init msgs k) sched = Some s -> calm c (init msgs k) sched = true ->
+  fixed c = true -> repaired_waits c = true -> run c (init msgs k) sched = Some s -> calm c (init msgs k) sched = true ->
   terminal c s -> closed s = false -> map fst (log s) = msgs.
 Proof. exact run_in_order_complete. Qed.
 Print Assumptions C11_in_order_complete.
@@ -88,9 +125,57 @@ Theorem C11_in_order_refuted :
 Proof. exact run_in_order_refuted. Qed.
 Print Assumptions C11_in_order_refuted.
 
+(* regression lemmas for the three repairs of round 2 (each: a complete run of the code before the repair, connection
+   open, in which an accepted message is never dispatched resp. an awaited response never reaches its request):
+   a ping issued by a handler (AsyncPing did not ask for a replacement loop), *)
+Theorem C11_ping_stalls_refuted :
+  exists c msgs k sched s,
+    fixed c = true /\ pingfix c = false /\ sigs_wf c msgs /\ NoDup msgs /\
+    run c (init msgs k) sched = Some s /\ quiescent c s = true /\ closed s = false /\
+    msgs = [1; 2] /\ map fst (log s) = [1] /\ queue s = [2] /\ prod s = [] /\
+    (exists lp, nth_error (loops s) 0 = Some lp /\ l_pc lp = PWaitS 1 9 []) /\
+    In (9, 0%nat) (sigs c) /\ signalled 9 s = false /\
+    none_dropped (obs_of msgs s false) = false.
+Proof. exact ping_stalls_refuted. Qed.
+Print Assumptions C11_ping_stalls_refuted.
+
+(* a retransmitted copy of a request whose handler waits in a nested request (handleReq blocked on the message-ID
+   lock without asking for a replacement loop), *)
+Theorem C11_dup_stalls_refuted :
+  exists c msgs k sched s,
+    fixed c = true /\ pingfix c = true /\ ackfix c = true /\ lockfix c = false /\ NoDup msgs /\ own_key c 3 /\
+    run c (init msgs k) sched = Some s /\ quiescent c s = true /\ closed s = false /\
+    msgs = [1; 2; 3] /\ map fst (log s) = [1; 2] /\ queue s = [3] /\ prod s = [] /\
+    (exists lp, nth_error (loops s) 0 = Some lp /\ l_pc lp = PWait 1 3 []) /\
+    (exists lp, nth_error (loops s) 1 = Some lp /\ l_pc lp = PLock 2) /\ length (loops s) = 2%nat /\
+    none_dropped (obs_of msgs s false) = false.
+Proof. exact dup_stalls_refuted. Qed.
+Print Assumptions C11_dup_stalls_refuted.
+
+(* the piggybacked response to a nested request whose own message ID equals the ID of the request being handled
+   (an ACK took the message-ID lock too) *)
+Theorem C11_ack_collision_refuted :
+  exists c msgs k sched s,
+    fixed c = true /\ repaired_waits c = true /\ ackfix c = false /\ NoDup msgs /\ sigs_wf c msgs /\
+    run c (init msgs k) sched = Some s /\ quiescent c s = true /\ closed s = false /\
+    msgs = [1; 2] /\ map fst (log s) = [1; 2] /\ queue s = [] /\ prod s = [] /\ sigd s = [2] /\
+    (exists lp, nth_error (loops s) 0 = Some lp /\ l_pc lp = PWait 1 2 []) /\
+    (exists l lp, nth_error (loops s) l = Some lp /\ l_pc lp = PLock 2) /\
+    never_stalls (obs_of msgs s false) = false.
+Proof. exact ack_collision_refuted. Qed.
+Print Assumptions C11_ack_collision_refuted.
+
+(* what checkMyMessageID (udp) guarantees for a confirmable message of the peer with ID p: none of the next 16382
+   IDs the connection draws equals p, also across the 16-bit wrap; it does nothing for other message types *)
+Theorem C11_check_my_mid_keeps_away : forall c p (j : nat),
+  1 <= Z.of_nat j <= 16382 -> u16 (after_draws j (check_my_mid c 0 p)) <> u16 p.
+Proof. exact check_my_mid_keeps_away. Qed.
+Print Assumptions C11_check_my_mid_keeps_away.
+
 (* the model of the repaired code satisfies the property predicate of Reader/Spec.v *)
 Theorem C11_dispatch_spec : forall c msgs k sched s nb,
-  fixed c = true -> NoDup msgs ->
+  fixed c = true -> repaired_waits c = true -> NoDup msgs ->
+  (forall r, In r msgs -> own_key c r) ->
   run c (init msgs k) sched = Some s -> terminal c s -> closed s = false ->
   (nb = true -> calm c (init msgs k) sched = true) ->
   holds (obs_of msgs s nb) = true.
@@ -100,7 +185,7 @@ Print Assumptions C11_dispatch_spec.
 (* the hypotheses are satisfiable by a non-trivial instance: two nested levels (handler of 1 waits for 4,
    handler of 2 waits for 3), queue size 1, one external caller, complete, open, calm *)
 Example C11_instance :
-  let c := mkCfg 1 true [(1, [HNested 4]); (2, [HNested 3])] in
+  let c := mkCfg 1 true true true true [(1, [HNested 4]); (2, [HNested 3])] [] [] in
   let s0 := init [1; 2; 3; 4] 1 in
   let sched := canon_sched 200 c s0 in
   exists s, run c s0 sched = Some s /\ calm c s0 sched = true /\ length sched = 29%nat /\
@@ -110,5 +195,28 @@ Proof.
   cbv zeta. eexists. split; [vm_compute; reflexivity|].
   split; [vm_compute; reflexivity|]. split; [vm_compute; reflexivity|].
   split; [apply quiescent_terminal; vm_compute; reflexivity|].
+  vm_compute. repeat split; reflexivity.
+Qed.
+
+(* ... and by one with the blocking points of round 2: the peer's NON request 1 (message ID 1001) is handled by a
+   handler that pings the peer (pong = signal 9, sent after message 2) and then issues a confirmable nested request
+   whose ID is 1001 as well and whose piggybacked response is message 4; message 2 is a retransmitted copy of 1,
+   message 3 a plain request; rendezvous queue; every own_key hypothesis holds because an ACK takes no lock *)
+Example C11_instance2 :
+  let c := mkCfg 0 true true true true [(1, [HPing 9; HAck 4; HNested 4])] [(9, 2%nat); (4, 1%nat)]
+                 [(1, (1, 1001)); (2, (1, 1001)); (3, (1, 1002)); (4, (2, 1001))] in
+  let s0 := init [1; 2; 3; 4] 0 in
+  let sched := canon_sched 300 c s0 in
+  exists s, run c s0 sched = Some s /\ terminal c s /\ closed s = false /\ sigs_wf c [1; 2; 3; 4] /\
+    own_key c 4 /\ map fst (log s) = [1; 2; 3; 4] /\ sigd s = [9; 4] /\
+    forallb (fun lp => negb (blocked_pc (l_pc lp))) (loops s) = true /\
+    holds (obs_of [1; 2; 3; 4] s false) = true.
+Proof.
+  cbv zeta. eexists. split; [vm_compute; reflexivity|].
+  split; [apply quiescent_terminal; vm_compute; reflexivity|].
+  split; [reflexivity|].
+  split. { intros r q [H|[H|[]]]; injection H as <- <-; cbn; lia. }
+  split. { intros m _. match goal with |- key_eqb _ (key_of ?c 4) = false => change (key_of c 4) with (@None Z) end.
+           match goal with |- key_eqb ?x None = false => destruct x; reflexivity end. }
   vm_compute. repeat split; reflexivity.
 Qed.
